@@ -14,8 +14,8 @@ from vlib import clist, cpair, log
 
 PID = "C17"
 PROPS = "C17_Props.v"
-TARGETS = ["C17_Props.vo", "C17_Check.vo", "C17_CheckLex.vo"]
-HARNESS = ["control/common_test.go", "control/c17_test.go", "control/c17lex_test.go"]
+TARGETS = ["C17_Props.vo", "C17_Check.vo", "C17_CheckLex.vo", "C17_CheckBuild.vo"]
+HARNESS = ["control/common_test.go", "control/c17_test.go", "control/c17lex_test.go", "control/c17build_test.go"]
 TEST = "TestVerifC17"
 
 EXPECT_LITERALS = ["','", "'{'", "'}'", "':'", "'['", "']'", "'!'", "'('", "')'", "'->'", "'&&'"]
@@ -149,6 +149,92 @@ def translate():
             % (cset(sets["id_head"]), cset(sets["nonid_head"]), cset(sets["intermediate"]), cset(sets["ws"]),
                cset(sets["eol"]), limit))
     return text, facts
+
+
+# ---- schema of config.New from the struct tags ---------------------------------------------------
+SCALAR_TYPES = {"bool": 1, "uint16": 2, "uint32": 3, "int": 4, "time.Duration": 5, "uint8": 6}
+STRUCT_NAMES = ["Global", "Group", "Routing", "Dns", "DnsRouting", "DnsRequestRouting", "DnsResponseRouting", "Config"]
+
+
+def nlist(s):
+    return "[" + ";".join(str(b) for b in s.encode()) + "]"
+
+
+def translate_schema():
+    """-> (coq text, python schema dict). Raises AnchorMoved."""
+    src = open(os.path.join(vlib.REPO, "config/config.go")).read()
+    structs = {}
+    for name in STRUCT_NAMES:
+        m = re.search(r"^type %s struct \{(.*?)^\}" % name, src, re.S | re.M)
+        if not m:
+            raise AnchorMoved("type %s struct not found in config/config.go" % name)
+        fields = []
+        has_rules = False
+        for line in m.group(1).split("\n"):
+            line = line.split("//")[0].rstrip() if "`" not in line.split("//")[0] else line
+            mm = re.match(r"\s*(\w+)\s+(\S+)\s+`([^`]*)`", line)
+            if not mm:
+                if line.strip() and not line.strip().startswith("//"):
+                    raise AnchorMoved("unreadable field line in %s: %s" % (name, line.strip()))
+                continue
+            fname, ftype, tags = mm.groups()
+            tag = dict((k, v) for k, v in re.findall(r'(\w+):"([^"]*)"', tags))
+            key = tag.get("mapstructure")
+            if key is None:
+                raise AnchorMoved("field %s.%s has no mapstructure tag" % (name, fname))
+            if key == "_":
+                if fname == "Rules" and ftype == "[]*config_parser.RoutingRule":
+                    has_rules = True
+                continue
+            if key == "so_mark_from_dae_set":
+                continue
+            if ftype == "string":
+                kind = ("KString",)
+            elif ftype in SCALAR_TYPES:
+                kind = ("KScalar", SCALAR_TYPES[ftype], ftype)
+            elif ftype in ("[]string", "[]KeyableString"):
+                kind = ("KList", 0)
+            elif ftype in ("FunctionOrString", "FunctionListOrString"):
+                kind = ("KIface",)
+            elif ftype == "[][]*config_parser.Function" and "repeatable" in tag:
+                kind = ("KFuncLists",)
+            elif ftype in STRUCT_NAMES:
+                kind = ("KStruct", STRUCT_NAMES.index(ftype))
+            elif ftype.startswith("[]") and ftype[2:] in STRUCT_NAMES:
+                kind = ("KStructList", STRUCT_NAMES.index(ftype[2:]))
+            else:
+                raise AnchorMoved("field %s.%s: type %s not understood" % (name, fname, ftype))
+            fields.append({"key": key, "kind": kind, "default": tag.get("default"), "required": "required" in tag, "go": fname})
+        structs[name] = {"sid": STRUCT_NAMES.index(name), "fields": fields, "has_rules": has_rules}
+    dsrc = open(os.path.join(vlib.REPO, "config/decode.go")).read()
+    m = re.search(r"var configSectionSpecs = \[\]configSectionSpec\{(.*?)\n\}", dsrc, re.S)
+    if not m:
+        raise AnchorMoved("configSectionSpecs not found in config/decode.go")
+    tops = []
+    for mm in re.finditer(r'\{name: "(\w+)",(\s*required: true,)?\s*decode: \w+\}', m.group(1)):
+        f = next((f for f in structs["Config"]["fields"] if f["key"] == mm.group(1)), None)
+        if f is None:
+            raise AnchorMoved("section %s has no field in Config" % mm.group(1))
+        tops.append({"name": mm.group(1), "kind": f["kind"], "required": bool(mm.group(2))})
+    if [t["name"] for t in tops] != [f["key"] for f in structs["Config"]["fields"]]:
+        raise AnchorMoved("configSectionSpecs and the Config struct disagree")
+
+    def ckind(k):
+        return "(%s %d)" % (k[0], k[1]) if len(k) > 1 else k[0]
+
+    def cfield(f):
+        return "(Field %s %s %s %s)" % (nlist(f["key"]), ckind(f["kind"]), "None" if f["default"] is None else "(Some %s)" % nlist(f["default"]), vlib.cbool(f["required"]))
+    text = ("(* generated by tools/c17.py from the struct tags of config/config.go and configSectionSpecs of\n"
+            "   config/decode.go - do not edit *)\nFrom Coq Require Import List NArith.\nFrom Dae Require Import C17_Schema.\n"
+            "Import ListNotations.\nOpen Scope N_scope.\n")
+    text += "Definition schema_structs : list sstruct := [\n" + ";\n".join(
+        "  (* %s *) Struct %d [\n    %s] %s" % (n, st["sid"], ";\n    ".join(cfield(f) for f in st["fields"]), vlib.cbool(st["has_rules"]))
+        for n, st in structs.items() if n != "Config") + "].\n"
+    text += "Definition schema_tops : list topsec := [%s].\n" % "; ".join(
+        "TopSec %s %s %s" % (nlist(t["name"]), ckind(t["kind"]), vlib.cbool(t["required"])) for t in tops)
+    text += "Definition schema_routing_sid : N := %d.\nDefinition schema_global_sid : N := %d.\n" % (STRUCT_NAMES.index("Routing"), STRUCT_NAMES.index("Global"))
+    text += "Definition schema_global_name : list N := %s.\n" % nlist("global")
+    return text, {"structs": structs, "tops": tops}
 
 
 LEXER_SHAPE_SHA = "0f7da07ac2435828817fbca435ae8119c05e60db8470bd49cf805c1e9ac25c28"
@@ -369,33 +455,17 @@ def show_decorated(rng, c):
 
 
 def bstr(s):
-    """Coq term of type str for python str/bytes"""
+    """Coq term of type str for python str/bytes: one string literal, odd bytes escaped (Check.D)"""
     b = s.encode("utf-8") if isinstance(s, str) else s
     if not b:
         return "[]"
-    segs = []
-    run = []
-    odd = []
-
-    def flush():
-        nonlocal run, odd
-        if run:
-            segs.append('B "%s"' % "".join(run))
-            run = []
-        if odd:
-            segs.append("[" + ";".join(str(x) for x in odd) + "]")
-            odd = []
+    out = []
     for x in b:
-        if 32 <= x < 127:
-            if odd:
-                flush()
-            run.append('""' if x == 34 else chr(x))
+        if 32 <= x < 127 and x not in (34, 92):
+            out.append(chr(x))
         else:
-            if run:
-                flush()
-            odd.append(x)
-    flush()
-    return "(" + " ++ ".join(segs) + ")"
+            out.append("\\%02x" % x)
+    return '(D "%s")' % "".join(out)
 
 
 def c_lit(l):
@@ -929,6 +999,205 @@ def check_build_cases(sc, binary, out, stats):
     return None
 
 
+# ---- config.New contract: generated configurations against the Coq model --------------------------
+VALUE_PALETTE = {
+    "bool": ["true", "false", "1", "0", "yes", "maybe", "TRUE", "t"],
+    "uint16": ["0", "65535", "65536", "-1", "0x10", "abc", "12345", "1.5"],
+    "uint32": ["0", "4294967295", "4294967296", "-1", "0x1f", "zz"],
+    "int": ["-5", "10", "x", "0", "9999999999999999999"],
+    "time.Duration": ["30s", "1h", "soon", "10", "0", "1h30m", "-5s", "5 s"],
+    "uint8": ["0", "255", "256"],
+}
+PROJECTED_GLOBAL_STRINGS = ["log_level", "dial_mode", "tls_implementation", "utls_imitate", "fallback_resolver", "bandwidth_max_tx", "tls_fragment_length"]
+ERR_KINDS = [("is required but not provided", 1), ("unknown section", 2), ("unexpected key", 3), ("unsupported text without a key", 4),
+             ("but not found", 5), ("cannot be convert", 6), ("unsupported section type", 6), ("expected exactly 1 function", 6),
+             ("cannot use routing rule in this context", 7), ("does not support type", 8), ("unmatched type", 8)]
+
+
+def q(v):
+    return "'%s'" % v
+
+
+def gen_struct_items(rng, sch, sname, depth=0):
+    """valid items for a struct section"""
+    st = sch["structs"][sname]
+    items = []
+    for f in st["fields"]:
+        k = f["kind"]
+        must = f["required"]
+        if f["key"] in ("bootstrap_resolver",):
+            continue
+        if not must and rng.random() > 0.25:
+            continue
+        if k[0] == "KString":
+            items.append("%s: %s" % (f["key"], rng.choice(["info", "'a b'", "x", "domain", "ip", "tls", "'50-100'"])))
+        elif k[0] == "KScalar":
+            good = {"bool": ["true", "false"], "uint16": ["0", "12345", "65535"], "uint32": ["0", "7"], "int": ["4", "6", "0"],
+                    "time.Duration": ["30s", "1h", "0"], "uint8": ["1"]}[k[2]]
+            items.append("%s: %s" % (f["key"], q(rng.choice(good)) if rng.random() < 0.3 else rng.choice(good)))
+        elif k[0] == "KList":
+            if rng.random() < 0.2:
+                items.append("%s { 'a:b' c }" % f["key"])
+            else:
+                items.append("%s: %s" % (f["key"], ", ".join(rng.choice(["eth0", "'http://a'", "'x:53'", "'1.1.1.1'"]) for _ in range(rng.choice([1, 2, 3])))))
+        elif k[0] == "KIface":
+            items.append("%s: %s" % (f["key"], rng.choice(["direct", "min", "asis", "fixed(0)", "accept", "'q'", "min_moving_avg"])))
+        elif k[0] == "KFuncLists":
+            for _ in range(rng.choice([1, 2])):
+                items.append("%s: %s%s" % (f["key"], rng.choice(["name(a)", "!name(b) && subtag(c)", "name(keyword: x)"]), rng.choice(["", " [add_latency: 5ms]"])))
+        elif k[0] == "KStruct" and depth < 3:
+            items.append("%s { %s }" % (f["key"], " ".join(gen_struct_items(rng, sch, STRUCT_NAMES[k[1]], depth + 1))))
+    if st["has_rules"]:
+        for _ in range(rng.choice([0, 1, 2])):
+            items.append(rng.choice(["dport(1) -> direct", "qname(x) -> asis", "!f(a) && g(k: v) -> o(p)", "x(y) -> must_z"]))
+    rng.shuffle(items)
+    return items
+
+
+def gen_build_text(rng, sch):
+    secs = {"global": gen_struct_items(rng, sch, "Global"), "routing": gen_struct_items(rng, sch, "Routing")}
+    if rng.random() < 0.5:
+        secs["dns"] = gen_struct_items(rng, sch, "Dns")
+    if rng.random() < 0.4:
+        secs["group"] = ["%s { %s }" % (n, " ".join(gen_struct_items(rng, sch, "Group"))) for n in rng.sample(["g1", "proxy", "my-group"], rng.choice([1, 2]))]
+    if rng.random() < 0.3:
+        secs["node"] = [rng.choice(["'socks5://a:1'", "n1: 'ss://x'", "tag: v"]) for _ in range(rng.choice([1, 2]))]
+    if rng.random() < 0.2:
+        secs["subscription"] = ["'https://s/1'", "my: 'file://x'"]
+    if rng.random() < 0.2:
+        secs["include"] = ["a.dae"]
+    scalars = [(sn, f) for sn in ("Global", "Dns") for f in sch["structs"][sn]["fields"] if f["kind"][0] == "KScalar"]
+    strings = [f for f in sch["structs"]["Global"]["fields"] if f["kind"][0] == "KString" and f["key"] != "bootstrap_resolver"]
+    tag = "valid"
+    for _ in range(rng.choice([0, 0, 1, 1, 1, 2])):
+        m = rng.randrange(20)
+        tag = "m%d" % m
+        tgt = rng.choice([k for k in ("global", "routing", "dns") if k in secs])
+        if m == 0:
+            secs.pop(rng.choice(["global", "routing"]), None)
+        elif m == 1:
+            secs[rng.choice(["bogus", "globals", "Routing", "dnss"])] = rng.choice([[], ["k: v"]])
+        elif m == 2:
+            secs[tgt].insert(rng.randrange(len(secs[tgt]) + 1), "%s: v" % rng.choice(["no_such_key", "so_mark_from_dae_set", "_", "Rules", "name"]))
+        elif m == 3:
+            secs[tgt].insert(rng.randrange(len(secs[tgt]) + 1), rng.choice(["justtext", "'quoted text'", "1.2.3.4"]))
+        elif m == 4:
+            sn, f = rng.choice(scalars)
+            sec = "global" if sn == "Global" else "dns"
+            if sec in secs:
+                secs[sec].insert(rng.randrange(len(secs[sec]) + 1), "%s: %s" % (f["key"], q(rng.choice(VALUE_PALETTE[f["kind"][2]]))))
+        elif m == 5:
+            secs["global"].insert(0, "f(x) -> y") if "global" in secs else None
+        elif m == 6:
+            f = rng.choice(strings)
+            secs.setdefault("global", []).append("%s { }" % f["key"])
+        elif m == 7:
+            f = rng.choice(strings)
+            secs.setdefault("global", []).append("%s: f(x)" % f["key"])
+        elif m == 8 and "dns" in secs:
+            secs["dns"].append("routing: x")
+        elif m == 9:
+            secs["group"] = ["g { filter: name(a) }"]
+        elif m == 10:
+            secs["dns"] = secs.get("dns", []) + ["routing { request { qname(x) -> u } }"]
+        elif m == 11:
+            secs["group"] = secs.get("group", []) + [rng.choice(["lit", "k: v", "f(x) -> y"])]
+        elif m == 12:
+            secs["node"] = secs.get("node", []) + [rng.choice(["f(x) -> y", "s { }"])]
+        elif m == 13:
+            secs["routing"] = secs.get("routing", []) + [rng.choice(["fallback: f(x) && g(y)", "fallback: f(x)", "fallback: block"])]
+        elif m == 14:
+            secs[tgt].append("%s { }" % rng.choice(["nosuch", "fallback", "ipversion_prefer"]))
+        elif m == 15 and "dns" in secs:
+            secs["dns"].append("routing { bogus { } }")
+        elif m == 16 and "dns" in secs:
+            secs["dns"].append("routing { request { fallback: asis nokey: 1 } }")
+        elif m == 17:
+            f = rng.choice(strings)
+            secs.setdefault("global", []).append("%s: %s" % (f["key"], rng.choice(["first", "'second one'"])))
+            secs["global"].append("%s: last" % f["key"])
+        elif m == 18:
+            secs.setdefault("global", []).append("lan_interface: a, b")
+            secs["global"].append("lan_interface { c }")
+    order = list(secs)
+    rng.shuffle(order)
+    parts = ["%s { %s }" % (n, "\n".join(secs[n])) for n in order]
+    if rng.random() < 0.1 and "global" in secs:
+        parts.append("global { log_level: debug }")       # a later section of the same name replaces the earlier one
+        tag += "+dup"
+    return "\n".join(parts) + "\n", tag
+
+
+def run_build_stream(sc, binary, rng, sch, n, out, stats):
+    """returns (list of model-fail texts, error)"""
+    test = "TestVerifC17Build"
+    # decode oracle over the palette
+    oreqs, okeys = [], []
+    for ty, vals in VALUE_PALETTE.items():
+        for v in vals + ["true", "false", "0", "12345", "65535", "7", "4", "6", "30s", "1h", "1"]:
+            if (ty, v) not in okeys:
+                okeys.append((ty, v))
+                oreqs.append({"op": "decode", "ty": ty, "value": b64(v)})
+    ores, err = run_requests(sc, binary, oreqs, "oracle", test=test)
+    if err:
+        return None, err
+    oracle = clist(["(%d, %s, %s)" % (SCALAR_TYPES[ty], bstr(v), vlib.cbool(r.get("ok", False))) for (ty, v), r in zip(okeys, ores)])
+    cases = [gen_build_text(rng, sch) for _ in range(n)]
+    cases = [(t, "fixed:" + name) for name, t, _ in BUILD_TEXTS] + cases
+    res, err = run_requests(sc, binary, [{"op": "build2", "text": b64(t)} for t, _ in cases], "build2", test=test)
+    if err:
+        return None, err
+    terms, idx = [], []
+    kinds = {}
+    for i, ((text, tag), r) in enumerate(zip(cases, res)):
+        if r.get("panic"):
+            out.violation("build_panic", {"op": "build", "text": text, "panic": r["panic"]}, "config.New crashed instead of answering", matchers=["C17/build-panic"])
+            continue
+        p, b = r["parse"], r["build"]
+        if not p.get("ok"):
+            kinds["unparsable"] = kinds.get("unparsable", 0) + 1
+            continue
+        if b.get("panic"):
+            code = 100
+        elif b.get("ok"):
+            code = 0
+        else:
+            code = next((c for pat, c in ERR_KINDS if pat in b.get("err", "")), 50)
+        kinds[code] = kinds.get(code, 0) + 1
+        gs = []
+        if code == 0:
+            g = b["conf"]["global"]
+            gs = [cpair(bstr(k), bstr(g[k])) for k in PROJECTED_GLOBAL_STRINGS if k in g]
+        idx.append(i)
+        terms.append("(Build_build_case %s oracle_tab %d %s)" % (g_sections(p.get("sections")), code, clist(gs)))
+    text = (HEADER + "From Dae Require Import C17_CheckBuild.\nDefinition oracle_tab : list (N * str * bool) := %s.\n" % oracle +
+            "Definition cases : list build_case := [\n%s\n].\n" % ";\n".join(terms) +
+            "Definition R := Eval vm_compute in map check_build cases.\nPrint R.\n"
+            "Definition S := Eval vm_compute in map build_signature cases.\nPrint S.\n")
+    ok, outtxt = vlib.coq_eval("C17_cases_build", text)
+    if not ok:
+        return None, "coq evaluation failed: " + outtxt[-2500:]
+    m = re.search(r"R\s*=\s*(.*?)\n\s*:\s*list", outtxt, re.S)
+    per = parse_nested_lists(m.group(1))
+    if len(per) != len(terms):
+        return None, "cannot parse coq output of the build stream"
+    m2 = re.search(r"S\s*=\s*(.*?)\n\s*:\s*list", outtxt, re.S)
+    bsigs = re.findall(r"\((\d+),(\d+),(\d+)\)", re.sub(r"\s+|%N", "", m2.group(1))) if m2 else []
+    stats["build_stream_answer_kinds"] = {str(k): v for k, v in sorted(kinds.items(), key=lambda kv: str(kv[0]))}
+    stats["build_stream_cases"] = len(terms)
+    model_fail = []
+    for i, e in zip(idx, per):
+        text, tag = cases[i]
+        if 9 in e or 2 in e:
+            out.violation("build_contract", {"op": "build", "text": text, "codes": e, "result": res[i]["build"],
+                                             "how": "Parse then config.New: the answer violates the contract (unknown/missing section or key accepted, crash, or a documented default not applied)"},
+                          "config.New violates its contract on this configuration", matchers=["C17/build-contract/" + tag])
+            break
+        if e:
+            model_fail.append({"text": text, "codes": e, "impl": res[i]["build"].get("err", "ok")})
+    return (model_fail, bsigs), None
+
+
 # ------------------------------------------------------------------------------------------------
 # running
 # ------------------------------------------------------------------------------------------------
@@ -1022,17 +1291,19 @@ def run_parse_batch(sc, binary, cases, tag):
 
 def run_lex_batch(sc, binary, cases, tag):
     """token-by-token: generated ANTLR lexer against the model lexer. Returns (indices that disagree, error)"""
-    idx = [i for i, c in enumerate(cases) if c["kind"] != "bytes"]
+    idx = [i for i, c in enumerate(cases) if c["kind"] not in ("bytes", "canon")]
     res, err = run_requests(sc, binary, [{"op": "lex", "text": b64(cases[i]["text"])} for i in idx], tag, test="TestVerifC17Lex")
     if err:
         return None, err
     terms = []
     for i, r in zip(idx, res):
         if r.get("panic"):
-            terms.append("(Build_lex_case %s true [])" % bstr(cases[i]["text"]))
+            terms.append("(Build_lex_case %s true [] [] [])" % bstr(cases[i]["text"]))
             continue
-        toks = clist([cpair(str(t["t"]), bstr(t["s"])) for t in (r.get("toks") or [])])
-        terms.append("(Build_lex_case %s %s %s)" % (bstr(cases[i]["text"]), vlib.cbool(r.get("errors", 0) > 0), toks))
+        toks = r.get("toks") or []
+        terms.append("(Build_lex_case %s %s %s [%s]%%nat %s)" % (
+            bstr(cases[i]["text"]), vlib.cbool(r.get("errors", 0) > 0), clist([str(t["t"]) for t in toks]),
+            ";".join(str(len(t["s"].encode("utf-8"))) for t in toks), bstr("".join(t["s"] for t in toks))))
     per, _, err = eval_cases("C17_cases_%s" % tag, "lex_case", terms, "check_lex", None)
     if err:
         return None, err
@@ -1134,12 +1405,15 @@ def main(argv):
     # 1. translators
     tie_broken = None
     facts = {}
+    schema = None
     try:
         gen_text, facts = translate()
         vlib.write_if_changed(os.path.join(vlib.COQ, "gen", "Extracted_C17.v"), gen_text)
         if facts["lexer_shape_sha256"] != LEXER_SHAPE_SHA or facts["parser_atn_sha256"] != PARSER_ATN_SHA:
             tie_broken = ("the dae_config grammar (generated ATN) is not the one the model was written against: lexer shape %s, parser %s"
                           % (facts["lexer_shape_sha256"][:12], facts["parser_atn_sha256"][:12]))
+        schema_text, schema = translate_schema()
+        vlib.write_if_changed(os.path.join(vlib.COQ, "gen", "Extracted_C17_Schema.v"), schema_text)
     except AnchorMoved as e:
         tie_broken = "anchor moved: %s" % e
     limit = facts.get("max_match_set_len", 1024)
@@ -1158,7 +1432,7 @@ def main(argv):
                "valid UTF-8 input for the structural comparison (the lexer works on runes, the model on bytes; they coincide because every special character is ASCII); arbitrary byte strings are only checked for 'an answer, not a crash'"]}
     out.coverage = cov
     out.assumptions = ["clause 'parsing never crashes whatever the input' for MALFORMED input: exploration only (generated near-miss, edge and raw streams); the theorem side says the model is total",
-                       "typed decoding (config.New) is checked for its contract on listed classes and documented defaults, not modelled through Go reflection",
+                       "typed decoding (config.New): modelled for its contract over the schema translated from the struct tags, with common.FuzzyDecode as an oracle answered by the harness; Go reflection itself and the bootstrap_resolver / http-method patches are not modelled",
                        "kernel-side capacity (BuildKernspace) cannot run in the stub build; the capacity clause is decided on the userspace builders",
                        "symbolic links are not resolved by the merger's directory check (path-wise containment); not generated"]
     stats = {}
@@ -1255,7 +1529,7 @@ def main(argv):
                                           "how": "Parse(text) differs from the configuration the text spells (or rejects a well-formed text)"},
                           "parsed configuration differs from what is written (%d texts)" % len(by["spec"]), matchers=["C17/parse-wrong"])
         parse_model_fail = by.get("model", []) + by.get("theorem", []) + by.get("generator", []) + lex_fail
-        stats["lexer_token_streams_compared"] = sum(1 for c in pcases if c["kind"] != "bytes")
+        stats["lexer_token_streams_compared"] = sum(1 for c in pcases if c["kind"] not in ("bytes", "canon"))
         stats["lexer_disagreements"] = len(lex_fail)
 
         log("parse stream classified and shrunk")
@@ -1302,6 +1576,13 @@ def main(argv):
         err = check_build_cases(sc, binary, out, stats)
         if err:
             tie_broken = tie_broken or err
+        build_model_fail, bsigs = [], []
+        if schema is not None:
+            r, err = run_build_stream(sc, binary, rng, schema, 60 if not thorough else 1500, out, stats)
+            if err:
+                tie_broken = tie_broken or err
+            else:
+                build_model_fail, bsigs = r
 
         # ---- capacity and risky programs: child processes
         log("build contract done")
@@ -1378,9 +1659,9 @@ def main(argv):
             out.violation(tag, payload, desc, matchers=[key])
 
         # ---- tie classification
-        n_eval = len(pcases) + len(mcases) + len(ccases) + len(BUILD_TEXTS)
-        model_fail_total = len(parse_model_fail) + len(merge_fail_model) + len(cap_model_fail)
-        if (parse_model_fail or merge_fail_model or cap_model_fail or tie_broken or not proof_ok) and not out.violations:
+        n_eval = len(pcases) + len(mcases) + len(ccases) + len(BUILD_TEXTS) + stats.get("build_stream_cases", 0)
+        model_fail_total = len(parse_model_fail) + len(merge_fail_model) + len(cap_model_fail) + len(build_model_fail)
+        if (parse_model_fail or merge_fail_model or cap_model_fail or build_model_fail or tie_broken or not proof_ok) and not out.violations:
             what = {}
             if not proof_ok:
                 what["proof"] = pinfo["failed"]
@@ -1391,6 +1672,8 @@ def main(argv):
                 what["parse_case"] = {"text": pcases[i].get("text"), "stream": pcases[i]["kind"], "codes": all_err.get(i, ["lexer token stream differs"])}
             if merge_fail_model:
                 what["merge_case"] = {"request": merge_request(mcases[merge_fail_model[0]])}
+            if build_model_fail:
+                what["build_case"] = build_model_fail[0]
             if cap_model_fail:
                 what["capacity_case"] = {k: ccases[cap_model_fail[0]][k] for k in ("stage", "total", "domains", "class")}
             what["searched"] = "%d cases with no impl<>spec disagreement" % n_eval
@@ -1399,7 +1682,8 @@ def main(argv):
             out.notes.append({"tie_also_broken": {"proof_ok": proof_ok, "tie": tie_broken, "parse_model_fail": len(parse_model_fail),
                                                   "merge_model_fail": len(merge_fail_model), "cap_model_fail": len(cap_model_fail)}})
 
-        nontrivial = len(set(s for s in sigs if s[0] == "0" and int(s[2]) > 0)) + len(set(s for s in msigs if s[0] == "0" and int(s[1]) > 1))
+        nontrivial = (len(set(s for s in sigs if s[0] == "0" and int(s[2]) > 0)) + len(set(s for s in msigs if s[0] == "0" and int(s[1]) > 1))
+                      + len(set(s for s in bsigs if int(s[2]) > 2)))
         sample = next((c for c in pcases if c["kind"] == "decorated" and len(c["text"]) > 40), pcases[0])
         cov.update(evaluations=n_eval, distinct_nontrivial=nontrivial,
                    distinct_signatures=len(set(sigs)) + len(set(msigs)),
@@ -1410,7 +1694,7 @@ def main(argv):
                    traces_validated_against_impl=n_eval - model_fail_total,
                    comparisons="lexer: ANTLR token stream (types, texts, error or not) = model token stream; parse: impl tree = model tree, impl = denote(ast), model = denote(ast), model(show ast) = denote(ast), python printer = Spec.show; "
                                "merge: impl = model (sections, files read), impl = spec tree merge, model = spec; capacity/compile: answer class, crash = violation; build: answer class + documented defaults",
-                   exploration_only=["absence of crashes on malformed input (near/edge/raw/bytes streams)", "config.New contract classes", "risky routing programs in child processes"],
+                   exploration_only=["absence of crashes of the IMPLEMENTATION on malformed input (near/edge/raw/bytes streams; the model-level statement is C17_parse_never_crashes)", "risky routing programs in child processes"],
                    statistics=stats,
                    samples=[{"stream": sample["kind"], "text": sample["text"][:600]}])
     return out.finish()
